@@ -47,7 +47,7 @@ def well_formed(tree):
 
 
 def expected(case):
-    specs = {k: F(v[0]) for k, v in (case.get('specs') or [])}
+    specs = {e[0]: F(e[1][0]) for e in (case.get('specs') or [])}    # e[1] = the declared default (or minval when None)
     entries = []          # name table, declaration order, functions in wrap order
     base = 0
     for f in preorder(case['tree']):
